@@ -503,8 +503,9 @@ def next_psuedo_matches(state: TokenizerState) -> TokenInfo | None:
             if token == ":=":  # at the top level of a replacement field ':=' is ':' + a spec starting with '='
                 token, end = ":", start + 1
                 epos, state.pos = (state.lnum, end), end
-            quote = next((p.quote for p in reversed(state.end_progs) if isinstance(p.mode, ModeMiddle)), "")
-            state.add_prog(start + 1, end, quote=quote, mode=ModeInColon(state.parenlev))
+            fstring = next((p for p in reversed(state.end_progs) if isinstance(p.mode, ModeMiddle)), None)
+            quote, raw = (fstring.quote, fstring.raw) if fstring else ("", False)
+            state.add_prog(start + 1, end, quote=quote, raw=raw, mode=ModeInColon(state.parenlev))
         token_type = Token.OP
     elif match.lastgroup == "End":  # // continuation
         state.continued = True
@@ -572,19 +573,38 @@ def scan_fstring_text(line: str, pos: int, quote: str, raw: bool) -> tuple[str, 
     return None
 
 
-def scan_format_spec(line: str, pos: int) -> tuple[str, int] | None:
-    """In a format spec: the next '{' opens a nested field, the next '}' closes the field."""
-    for i in range(pos, len(line)):
-        if line[i] == "{":
+def scan_format_spec(line: str, pos: int, quote: str, raw: bool) -> tuple[str, int] | None:
+    """In a format spec: the next '{' opens a nested field, the next '}' closes the field.
+
+    Backslashes work as in the literal text (see scan_fstring_text), and the quote of the
+    f-string still ends the literal here -- ("Quote", end): the field is then unterminated.
+    """
+    i, n = pos, len(line)
+    while i < n:
+        ch = line[i]
+        if ch == "\\":
+            if not raw and line.startswith("N{", i + 1) and (j := line.find("}", i + 3)) >= 0:
+                i = j + 1
+            elif line[i + 1 : i + 2] in ("{", "}"):
+                i += 1  # the brace keeps its meaning
+            else:
+                i += 2
+        elif ch == "{":
             return "LBrace", i + 1
-        if line[i] == "}":
+        elif ch == "}":
             return "RBrace", i + 1
+        elif quote and line.startswith(quote, i):
+            return "Quote", i + len(quote)
+        else:
+            i += 1
     return None
 
 
 def handle_fstring_progs(state: TokenizerState, endprog: EndProg) -> Iterator[TokenInfo]:
     if isinstance(endprog.mode, ModeInColon):
-        found = scan_format_spec(state.line, state.pos)
+        found = scan_format_spec(state.line, state.pos, endprog.quote, endprog.raw)
+        if found is not None and found[0] == "Quote":
+            raise TokenError("f-string: expecting '}'", (state.lnum, found[1] - len(endprog.quote)))
     else:
         found = scan_fstring_text(state.line, state.pos, endprog.quote, endprog.raw)
     if found is None:
